@@ -94,6 +94,8 @@ for nm, e in [
  ('fn_item_map', 's.split(\',\').map(str::trim).collect::<Vec<&str>>()'), ('fn_item_filter', 's.chars().filter(char::is_ascii_digit).count()'),
  ('ok_or_else_closure', '{ let e = || "bad".to_string(); s.split_once(\',\').ok_or_else(e).map(|x| x.0.len()) }'),
  ('opt_as_mut', '{ let mut o = Some(s.to_string()); if let Some(x) = o.as_mut() { x.push(\'!\'); }; o }'), ('opt_as_mut_none', '{ let mut o: Option<String> = None; if let Some(x) = o.as_mut() { x.push(\'!\'); }; o }'),
+ ('vec_extend_vec', '{ let mut v: Vec<String> = vec![s.to_string()]; v.extend(vec!["x".to_string()]); v }'), ('vec_extend_iter', '{ let mut v: Vec<usize> = vec![1]; v.extend(s.bytes().map(|b| b as usize)); v }'), ('vec_append', '{ let mut a = vec![1u8]; let mut b = s.as_bytes().to_vec(); a.append(&mut b); (a, b) }'),
+ ('string_truncate_boundary', '{ let mut x = s.to_string(); if x.is_char_boundary(n.min(x.len())) { x.truncate(n); }; x }'),
  ('closure_mut', '{ let mut k = 0usize; let mut f = |x: usize| { k += x; }; f(1); f(n); k }'),
 ]: add('sn', nm, e)
 
